@@ -2948,7 +2948,11 @@ func (pid *PID) handleStopDirective(cid *PID, includeSiblings bool) {
 				spid.suspend(err.Error())
 				return nil
 			}
-			tree.deleteNode(spid)
+			// the tree node is reaped by the death watch when it handles the
+			// child's Terminated message, like on every other stop path; that
+			// is also where the actors counter is decreased. Deleting the node
+			// here raced with it: whenever this delete won, the death watch
+			// found no node and the counter stayed one too high for ever.
 			return nil
 		})
 	}
